@@ -123,6 +123,8 @@ type Run struct {
 	allocCells    int
 	symIndexFork  int
 	sequentialised bool
+	lazyGo        bool        // go statements are queued and run when the spawner blocks (zzverif.LazyGo)
+	goQueue       []pendingGo
 
 	mutex    map[string]int // ghost lock state keyed by object path
 	hashes   map[*Obj]*hashGhost
@@ -1040,6 +1042,8 @@ func (h *HarnessRun) runPath(sv *Solver, prefix []Decision) {
 			}
 		}()
 		r.callFunction(h.fn, nil, nil)
+		for r.runOneQueued() {
+		}
 	}()
 	r.endSession()
 	if os.Getenv("GOSYM_PATHS") != "" {
